@@ -19,7 +19,7 @@ class C09(Prop):
     id = "C09"
     rule = (
         "cases = a collecting step (num_workers 1..4, expected list of 2-4 types with repeats, default or named buffer, optional "
-        "yields before and virtual work after the collect_events call, optional fail-once-then-retry after a completed collection) fed "
+        "yields before and virtual work after the collect_events call, optional fail-once-then-retry after a completed collection, optional suspension in ctx.wait_for_event after a completed collection -- answered later by the harness or left to its timeout -- so that the step is replayed from the top) fed "
         "by producer invocations whose virtual durations fix the arrival order (many equal, so several collecting invocations overlap); in one case of three the collected events of a type are equal-valued (no distinguishing field; the harness tracks object identity). "
         "Mode 'exact': R rounds, round j+1 is emitted only after round j's list was returned, each round is exactly the expected "
         "multiset (no type ever in surplus): every clause incl. completeness (exactly R lists, every arrived event in exactly one). "
@@ -66,6 +66,9 @@ class C09(Prop):
                 "pre_yields": draw(st.sampled_from([0, 0, 0, 1, 2])),
                 "post": draw(st.sampled_from([0, 0, 0, 1, 2])),
                 "fail_once": mode == "exact" and draw(st.integers(0, 4)) == 0,
+                # after its list was returned the same invocation suspends in ctx.wait_for_event (an approval): answered by the harness
+                # d seconds later, or left to its timeout; the step is then replayed from the top and must see the same list again
+                "wait_after": draw(st.sampled_from([None, None, None, ["reply", 0.5], ["reply", 2], ["timeout", 1], ["timeout", 3]])) if mode == "exact" else None,
                 "equal_payloads": draw(st.integers(0, 2)) == 0,
                 "retry_wait": draw(st.sampled_from([0, 0, 1, 2])),
                 "ties": draw(st.lists(st.integers(0, 7), max_size=10)),
@@ -122,10 +125,21 @@ class C09(Prop):
                     inv["got"] = None
                     return None
                 inv["got"] = [(type(e).__name__, uid_of(e)) for e in got]
+                wa = case.get("wait_after")
+                if wa:
+                    wid = f"approve-{uid_of(ev)}"
+                    if not any(w["wid"] == wid for w in log["waiting"]):
+                        log["waiting"].append({"wid": wid, "t": VClock.t, "answered": False})
+                    try:
+                        await ctx.wait_for_event(ge.Reply, waiter_id=wid, requirements={"wid": wid}, timeout=wa[1] if wa[0] == "timeout" else None)
+                        inv["approved"] = "reply"
+                    except asyncio.TimeoutError:
+                        inv["approved"] = "timeout"
                 if case["post"]:
                     await asyncio.sleep(case["post"])
                 if case["fail_once"] and ri.retry_number == 0:
                     raise ge.GenError("after-collect")
+                inv["returned"] = True
                 return rec.mk("E4", "ret", round=ev.get("round"))
             except BaseException as e:  # noqa: BLE001
                 inv["exc"] = type(e).__name__
@@ -171,14 +185,34 @@ class C09(Prop):
     def run_case(self, case):
         case = json.loads(json.dumps(case))
         r = CaseResult()
-        log = {"arrivals": [], "col": []}
-        tot = sum(d for rd in case["rounds"] for _, d in rd) + (case["post"] + case["retry_wait"] + 1) * (sum(len(rd) for rd in case["rounds"]) + 2)
+        log = {"arrivals": [], "col": [], "waiting": []}
+        wa = case.get("wait_after")
+        tot = sum(d for rd in case["rounds"] for _, d in rd) + (case["post"] + case["retry_wait"] + 1 + (wa[1] + 1 if wa else 0)) * (sum(len(rd) for rd in case["rounds"]) + 2)
         fin_at = 20.0 + 3 * tot
         spec = {"steps": [], "ext": [[fin_at, "send", "Fin", None, {}]], "ties": case["ties"], "timeout": None}
         rec = genwf.Rec(spec)
 
+        async def approver():
+            # the human: answers every approval request wa[1] seconds after it was first made
+            ge = genwf.M()["ge"]
+            while True:
+                await asyncio.sleep(0.25)
+                for w in log["waiting"]:
+                    if not w["answered"] and VClock.t >= w["t"] + wa[1] - 1e-9 and getattr(rec, "handler", None) is not None:
+                        w["answered"] = True
+                        try:
+                            rec.handler.ctx.send_event(ge.Reply(wid=w["wid"]))
+                        except Exception:  # noqa: BLE001  (run already over)
+                            pass
+
         async def main():
-            return await genwf.run_program(spec, rec, wf_factory=self._factory(case, rec, log), horizon=fin_at * 4 + 100, probe=False)
+            ap = asyncio.create_task(approver()) if wa and wa[0] == "reply" else None
+            try:
+                return await genwf.run_program(spec, rec, wf_factory=self._factory(case, rec, log), horizon=fin_at * 4 + 100, probe=False)
+            finally:
+                if ap is not None:
+                    ap.cancel()
+                    await asyncio.gather(ap, return_exceptions=True)
 
         try:
             from .. import boot
@@ -240,6 +274,13 @@ class C09(Prop):
             lost = arrived - set(seen)
             if lost and len(completions) == R:
                 r.v("arrived_event_in_no_list", n=len(lost))
+            # a collection that was returned to the step is not taken back: the invocation that got it finishes with it
+            delivered = {inv["uid"] for inv in log["col"] if inv.get("returned")}
+            for key in completions:
+                k0 = key[0] if isinstance(key, tuple) else key
+                if k0 not in delivered:
+                    r.v("collected_set_lost_before_step_finished", suspended_in_wait=bool(wa), mode=case["mode"])
+                    break
         # classes / non-triviality
         per = {}
         for inv in log["col"]:
@@ -254,6 +295,8 @@ class C09(Prop):
         r.classes.append("mode_" + case["mode"])
         if case["fail_once"]:
             r.classes.append("fail_once")
+        if wa and any(inv.get("approved") for inv in log["col"]):
+            r.classes.append("suspended_after_collect_" + wa[0])
         if case.get("equal_payloads"):
             r.classes.append("equal_payloads")
         if len(completions) >= 2:
